@@ -14,6 +14,7 @@
  *   BS_U1            complete union type
  *   TS_PTR           (operand types only) a fresh pointer type; referenced type = selector g_?bs, qualifiers g_?q
  *   TS_NULLPTR       nullptr_t (C23)
+ * Operand-type selectors never use BS_PI directly (a pointer operand is always TS_PTR).
  */
 #ifndef EXPR_UTIL_H
 #define EXPR_UTIL_H
@@ -46,7 +47,7 @@ unsigned g_enAb, g_enBb;      /* AT code of the integer type each enum is compat
 #define TS_ISFLT(ts)     ((ts) >= AT_FLOAT && (ts) <= AT_LDOUBLE)                      /* real floating, 6.2.5p10 */
 #define TS_ISARITH(ts)   (TS_ISINT(ts) || TS_ISFLT(ts))                                /* 6.2.5p18; no complex types in cproc */
 #define TS_ISREAL(ts)    TS_ISARITH(ts)                                                /* 6.2.5p17 */
-#define TS_ISPTR(ts)     ((ts) == TS_PTR || (ts) == BS_PI)
+#define TS_ISPTR(ts)     ((ts) == TS_PTR)
 #define TS_ISSCALAR(ts)  (TS_ISARITH(ts) || TS_ISPTR(ts) || (ts) == TS_NULLPTR)        /* 6.2.5p21 (+ C23 nullptr_t) */
 #define TS_ISSTRUCT(ts)  ((ts) == BS_S1 || (ts) == BS_S2 || (ts) == BS_S3INC || (ts) == BS_U1)
 /* referenced-type facts */
